@@ -79,6 +79,12 @@ Theorem C20_wildcard_then_selector_refuted :
   fst (ev std_sems d (expand [NAll; NSel [97]])) = None /\ ref_eval [NAll; NSel [97]] d = [JLeaf (TNum [49])].
 Proof. exact wildcard_then_selector_refuted. Qed.
 
+(* the fourth one, found by the thorough tier through this model: a repeated key whose first member is of another kind *)
+Theorem C20_error_where_reference_selects_refuted :
+  let d := JObj [([99], false, JObj [([120], false, JLeaf (TNum [49]))]); ([99], false, JArr [JLeaf (TNum [49]); JLeaf TTrue])] in
+  fst (ev std_sems d (expand [NSel [99]; NIdx 1])) = None /\ ref_eval [NSel [99]; NIdx 1] d = [JLeaf TTrue].
+Proof. vm_compute. split; reflexivity. Qed.
+
 (* non-vacuity: $.b.c[*].a on {"a":1,"b":{"a":2,"c":[{"a":3},{"a":4,"b":[5,6]}]}} fits and selects 3 and 4;
    $['b'].c[1].b[0] selects 5 *)
 Definition C20_doc : jv :=
